@@ -16,7 +16,9 @@ RULE = ("(a) exhaustive: all multisets of <= 3 types from a finite universe of d
         "variant lacking the field; mode 2 (33 normal-form types incl. Optional-wrapped ones and nested models) as the single "
         "field of three root models that merge_models() merges. Oracle: normal-form predicate on every field type of every "
         "registered model, and a further optimize_type pass over all models raises nothing and leaves the "
-        "canonical form (types as sets) of the graph unchanged. (b) Hypothesis: final registries of C01's generator, same oracle, plus the "
+        "canonical form (types as sets) of the graph unchanged. (b) Hypothesis: final registries of C01's generator, same oracle (phase 'graphs'), and the result of generate() "
+        "alone - one pass, no merge_models - incl. a registry into which the date/time classes are registered after its first "
+        "use (phase 'generate-only'), plus the "
         "render-independent normal-form clauses on the AST of every emitted annotation. Non-trivial: (a) >= 2 members "
         "(a union had to be formed / simplified); (b) the graph contains a union or an Optional. distinct = canonical JSON.")
 ASSUMPTIONS = ["text-level clauses are restricted to those rendering cannot introduce (nested/single-member unions, "
@@ -146,6 +148,40 @@ def check_ir(case):
 ALLOWED_TEXT_CLAUSES = {"single-member-union", "nested-union", "optional-in-union", "null-in-union", "optional-in-optional"}
 
 
+def check_generate_only(case):
+    """the result of generate() itself (one simplification pass, no merge_models): registered and checked as it is"""
+    r = R()
+    samples, opts = case["samples"], pl.norm_opts(case["opts"])
+    r.label(*input_labels(samples))
+    names = list(opts["sreg"])
+
+    def run():
+        sreg = pl.make_sreg([n for n in names if not (case.get("late_datetime") and n.startswith("Iso"))])
+        g = pl.MetadataGenerator(str_types_registry=sreg, dict_keys_regex=list(opts["dkr"]) or None,
+                                 dict_keys_fields=list(opts["dkf"]) or None)
+        smp = samples
+        if case.get("late_datetime"):
+            # the registry is used once, then the date/time classes are registered into it (documented helper), then it is used again
+            g.generate({"warm": ["1", "2.5", "x" * 25]}, {"warm": ["true"]})
+            from json_to_models.dynamic_typing import register_datetime_classes
+            register_datetime_classes(sreg)
+            smp = list(samples) + [{"late_dd": ["2018-01-02", "x" * 25, "12:30"]}]
+        meta = g.generate(*smp)
+        reg = pl.ModelRegistry()
+        reg.process_meta_data(meta, model_name="Root")
+        return g, reg
+    ok, res = owned(r, "generate", run)
+    if not ok:
+        return r
+    g, reg = res
+    if case.get("late_datetime"):
+        r.label("datetime-registered-after-first-use")
+    r.nontrivial = any(isinstance(x, (dt.DUnion, dt.DOptional)) for m in reg.models for t in m.type.values()
+                       for x in ([t] + list(t.iter_child()) if isinstance(t, dt.BaseType) else [t]))
+    check_registry(r, g, reg, names, prefix="generate-only:")
+    return r
+
+
 def check_graph(case):
     r = R()
     samples, opts = case["samples"], pl.norm_opts(case["opts"])
@@ -183,6 +219,14 @@ def check_graph(case):
     return r
 
 
+@__import__("hypothesis").strategies.composite
+def gen_only_cases(draw, tier="quick"):
+    import hypothesis.strategies as st
+    c = draw(c01.cases(tier))
+    c["late_datetime"] = draw(st.sampled_from([False, False, True]))
+    return c
+
+
 def valid(case):
     if "mode" in case:
         return case["mode"] in (0, 1, 2) and isinstance(case.get("members"), list) and 1 <= len(case["members"]) <= 3 \
@@ -191,6 +235,7 @@ def valid(case):
 
 
 def phases(tier):
-    n = {"quick": 16 * 1200, "thorough": 16 * 25000}[tier]
+    n = {"quick": 16 * 800, "thorough": 16 * 20000}[tier]
     return [dict(name="ir-multisets", kind="enumerate", cases=ir_cases, check=check_ir),
-            dict(name="graphs", kind="hypothesis", strategy=c01.cases(tier), check=check_graph, examples=n)]
+            dict(name="graphs", kind="hypothesis", strategy=c01.cases(tier), check=check_graph, examples=n),
+            dict(name="generate-only", kind="hypothesis", strategy=gen_only_cases(tier), check=check_generate_only, examples=n)]
